@@ -3,7 +3,7 @@ from __future__ import annotations
 
 import numpy as np
 
-from . import corr_api, corr_eig, corr_index, corr_relabel, corr_sgperm, corr_stages
+from . import corr_api, corr_dist, corr_eig, corr_index, corr_relabel, corr_sgperm, corr_stages
 from . import oracles as O
 from .gen import crystal
 
@@ -385,14 +385,16 @@ PROPS = {
     "C07": {
         "lean": "SymfcModel.Props.C07", "gen": ["Cutoff", "ApiCompute", "PipelineSkel"],
         "corr": [{"fn": C.corr_combinations, "quick": {"n_cases": 45}, "thorough": {"n_cases": 300}},
-                 {"fn": C.corr_perm_stage, "quick": {"n_cases": 24}, "thorough": {"n_cases": 150}}],
+                 {"fn": C.corr_perm_stage, "quick": {"n_cases": 24}, "thorough": {"n_cases": 150}},
+                 {"fn": corr_dist.corr_dist, "quick": {"n_cases": 40}, "thorough": {"n_cases": 400}}],
         "oracle": [{"name": "cutoff", "fn": o_cutoff, "quick": {"n": 6}, "thorough": {"n": 30, "max_N": (8, 6, 3)},
                     "search": {"n": 36, "max_N": (8, 6, 3)}}],
         "known": known_F1,
         "corpus": [{"name": "corpus_F1_order4_large_cutoff", "fn": corpus_F1_cutoff}],
         "trusted": [KERNELS["spglib"], KERNELS["float"],
-                    "minimum-image distances (_calc_distances, Niggli reduction) are NOT modelled: `near` is an input of the theorems; "
-                    "the oracle compares distances with an exhaustive image search"],
+                    "minimum-image distances: the Niggli reduction (spglib) is trusted; the rest of _calc_distances is modelled in exact "
+                    "arithmetic (Model/Dist.lean) and compared with the real code on integer lattices; float rounding of the "
+                    "distances is observed by the oracle against an exhaustive image search"],
     },
     "C08": {
         "lean": "SymfcModel.Props.C08", "gen": ["PermTables", "PipelineSkel"],
@@ -421,6 +423,7 @@ PROPS = {
         "lean": "SymfcModel.Props.C10", "gen": ["PermTables", "Cutoff", "SgPermSkel", "SpgRepsSkel"],
         "corr": [{"fn": C.corr_cell_index, "quick": {"n_cases": 9}, "thorough": {"n_cases": 60}},
                  {"fn": corr_relabel.corr_relabel, "quick": {"n_cases": 20}, "thorough": {"n_cases": 150}},
+                 {"fn": corr_dist.corr_dist, "quick": {"n_cases": 20}, "thorough": {"n_cases": 200}},
                  {"fn": C.corr_perm_stage, "quick": {"n_cases": 8}, "thorough": {"n_cases": 40}},
                  {"fn": corr_sgperm.corr_sg_perm, "quick": {"n_cases": 40}, "thorough": {"n_cases": 300}}],
         "oracle": [{"name": "description", "fn": o_description, "quick": {"n": 25}, "thorough": {"n": 100}, "search": {"n": 60}}],
